@@ -12,6 +12,7 @@ type UnknownBox struct {
 	name       string
 	size       uint64
 	notDecoded []byte
+	largeSize  bool // decoded from a 16-byte (large-size) header, which is then written back
 }
 
 // DecodeUnknown - decode an unknown box
@@ -27,14 +28,14 @@ func DecodeUnknown(hdr BoxHeader, startPos uint64, r io.Reader) (Box, error) {
 // CreateUnknownBox creates an unknown box. Set the size to match
 // the payload size + header size to get a well-formed box.
 func CreateUnknownBox(name string, size uint64, payload []byte) *UnknownBox {
-	return &UnknownBox{name, size, payload}
+	return &UnknownBox{name, size, payload, false}
 }
 
 // DecodeUnknownSR - decode an unknown box
 func DecodeUnknownSR(hdr BoxHeader, startPos uint64, sr bits.SliceReader) (Box, error) {
-	// The box is written back with a compact header, so a large-size header must not count in Size()
-	size := hdr.Size - uint64(hdr.Hdrlen) + boxHeaderSize
-	return &UnknownBox{hdr.Name, size, sr.ReadBytes(hdr.payloadLen())}, sr.AccError()
+	// hdr.Size counts a large-size header, so the same header form is written back by EncodeSW
+	largeSize := hdr.Hdrlen > boxHeaderSize
+	return &UnknownBox{hdr.Name, hdr.Size, sr.ReadBytes(hdr.payloadLen()), largeSize}, sr.AccError()
 }
 
 // Type - return box type
@@ -65,7 +66,7 @@ func (b *UnknownBox) Encode(w io.Writer) error {
 
 // EncodeSW - box-specific encode to slicewriter
 func (b *UnknownBox) EncodeSW(sw bits.SliceWriter) error {
-	err := EncodeHeaderSW(b, sw)
+	err := EncodeHeaderWithSizeSW(b.name, b.size, b.largeSize, sw)
 	if err != nil {
 		return err
 	}
